@@ -704,7 +704,7 @@ func TestC20Cycle(t *testing.T) {
 	if e == nil {
 		return
 	}
-	vlib.Check(t, vlib.N(44, 150), func(t *rapid.T) {
+	vlib.Check(t, vlib.N(36, 150), func(t *rapid.T) {
 		F, src, _ := drawCase(t)
 		c := &cycleCtx{F: F, src: src, tt: abe.TruthTable(F, alphabet), hard: F.Nots() > 0 || F.RepeatedLabel(), labels: F.Labels()}
 		c.msg = make([]byte, rapid.SampledFrom(msgLens).Draw(t, "msgLen"))
